@@ -83,9 +83,10 @@ func All() []*Instance {
 		h4([]string{"validate-typo"}, []string{"suggest-SELCT", "parse-bad"}),
 		h4([]string{"newscanner-scansql"}, []string{"newscanner-scansql"}, []string{"suggest-SELCT"}),
 		// two texts through the linter, each goroutine linting both: state kept between calls and keyed by text
-		h4([]string{"lint"}, []string{"lint-other", "lint"}),
-		h4([]string{"lint", "lint-other"}, []string{"lint-other", "lint"}),
-		h4([]string{"lint-other", "lint"}, []string{"lint-other", "lint"}),
+		// (four long operations per instance: the thorough tier keeps the quick bound, a third preemption costs half an hour)
+		with(h4([]string{"lint"}, []string{"lint-other", "lint"}), []Bound{{2, 1}}, []Bound{{2, 1}}),
+		with(h4([]string{"lint", "lint-other"}, []string{"lint-other", "lint"}), []Bound{{2, 1}}, []Bound{{2, 1}}),
+		with(h4([]string{"lint-other", "lint"}, []string{"lint-other", "lint"}), []Bound{{2, 1}}, []Bound{{2, 1}}),
 		// the config file cache (RWMutex + atomics; check-then-act load/insert)
 		h4([]string{"config-cached"}, []string{"config-cached"}),
 		h4([]string{"config-cached", "config-cached"}, []string{"config-cached"}),
